@@ -1,6 +1,7 @@
 """Machinery shared by C03 / C04 / C16 (wire format): corpora, real decoder/encoder runs, TLC validation."""
 import json
 import os
+import time
 import subprocess
 
 import gen
@@ -32,10 +33,12 @@ CHECK_DEADLOCK FALSE
 """
 
 
-def run_harness_lines(cmd, inp, out, items, timeout=90, max_crashes=10):
+def run_harness_lines(cmd, inp, out, items, timeout=90, max_crashes=10, stall=None):
     """run a vh wire command; a crash of the process (stack overflow, abort) or a hang is data:
     returns (observations, crashes) where crashes is a list of (index, reason)"""
     write_ndjson(inp, items)
+    if stall is None:
+        stall = min(timeout, 60)
     crashes = []
     obs_all = []
     start = 0
@@ -47,12 +50,33 @@ def run_harness_lines(cmd, inp, out, items, timeout=90, max_crashes=10):
             cur_in = inp + ".%d" % start
             write_ndjson(cur_in, items[start:])
         exe = vlib.build_harness()
-        try:
-            p = subprocess.run([exe, cmd, cur_in, out], stdout=subprocess.PIPE, stderr=subprocess.PIPE, text=True,
-                               timeout=timeout)
-            rc, reason = p.returncode, "exit status %d: %s" % (p.returncode, p.stderr[-300:])
-        except subprocess.TimeoutExpired:
-            rc, reason = -1, "no termination within %ds" % timeout
+        # the harness writes (and flushes) one result line per input line: a run that stops producing lines for
+        # `stall` seconds is stuck on the next input (no need to wait for the overall time limit)
+        if os.path.exists(out):
+            os.remove(out)
+        errf = open(out + ".stderr", "w+")
+        proc = subprocess.Popen([exe, cmd, cur_in, out], stdout=subprocess.DEVNULL, stderr=errf)
+        t0 = last_change = time.time()
+        last_size = -1
+        rc, reason = None, ""
+        while True:
+            try:
+                rc = proc.wait(timeout=1.0)
+                errf.seek(0)
+                reason = "exit status %d: %s" % (rc, errf.read()[-300:])
+                break
+            except subprocess.TimeoutExpired:
+                pass
+            size = os.path.getsize(out) if os.path.exists(out) else 0
+            now = time.time()
+            if size != last_size:
+                last_size, last_change = size, now
+            if now - last_change > stall or now - t0 > timeout:
+                proc.kill()
+                proc.wait()
+                rc, reason = -1, "no termination within %ds" % int(now - last_change if now - last_change > stall else timeout)
+                break
+        errf.close()
         obs = read_ndjson(out) if os.path.exists(out) else []
         obs_all += obs
         if rc == 0:
